@@ -53,7 +53,23 @@ import (
 
 func init() { logging.SetLogLevel("*", "fatal") }
 
-func blk(i int) blocks.Block { return blocks.NewBlock([]byte(fmt.Sprintf("c37-block-%d", i))) }
+// blk(i), i < 8: CIDv0 (dag-pb, sha2-256) of some bytes; blk(i+8) is the SAME bytes under another CID with the
+// same multihash: CIDv1 dag-pb for i < 4, CIDv1 raw for 4 <= i < 8. Distinct CIDs are distinct keys of a request.
+func blk(i int) blocks.Block {
+	if i < 8 {
+		return blocks.NewBlock([]byte(fmt.Sprintf("c37-block-%d", i)))
+	}
+	base := blocks.NewBlock([]byte(fmt.Sprintf("c37-block-%d", i-8)))
+	codec := uint64(cid.DagProtobuf)
+	if i-8 >= 4 {
+		codec = cid.Raw
+	}
+	b, err := blocks.NewBlockWithCid(base.RawData(), cid.NewCidV1(codec, base.Cid().Hash()))
+	if err != nil {
+		panic(err)
+	}
+	return b
+}
 
 // ---------------------------------------------------------------- generator
 
@@ -142,6 +158,16 @@ func genCore(r *vh.Rand, id string) vh.Case {
 	for i := 0; i < nk; i++ {
 		keys = append(keys, r.Intn(pool)) // duplicates on purpose
 	}
+	twins := r.Chance(1, 3) // keys that share a multihash: k and k+8 are different CIDs of the same bytes
+	if twins {
+		for i, k := range keys {
+			if r.Chance(1, 2) {
+				keys = append(keys, k+8)
+			} else if r.Chance(1, 3) {
+				keys[i] = k + 8
+			}
+		}
+	}
 	ks := make([]string, len(keys))
 	want := map[int]bool{}
 	for i, k := range keys {
@@ -153,7 +179,13 @@ func genCore(r *vh.Rand, id string) vh.Case {
 	if r.Chance(1, 4) && nk > 0 {
 		// a connected node answers from inside want(): every key it holds must be delivered
 		var hs []string
-		for _, k := range shuffledInts(r, pool+1) {
+		cand := shuffledInts(r, pool+1)
+		if twins {
+			for _, k := range shuffledInts(r, pool+1) {
+				cand = append(cand, k+8)
+			}
+		}
+		for _, k := range cand {
 			if r.Chance(1, 2) {
 				hs = append(hs, strconv.Itoa(k))
 				if want[k] && !published[k] {
@@ -182,6 +214,8 @@ func genCore(r *vh.Rand, id string) vh.Case {
 			k := r.Intn(pool + 1) // pool+… = sometimes a CID nobody asked for
 			if len(keys) > 0 && r.Chance(3, 5) {
 				k = keys[r.Intn(len(keys))]
+			} else if twins && r.Chance(1, 2) {
+				k += 8 // the twin CID, requested or not
 			}
 			c.Ops = append(c.Ops, fmt.Sprintf("pub %d", k))
 			if want[k] && !published[k] && !cancelled {
